@@ -147,6 +147,12 @@ def install(lib):
         return NONE
     os_['close'] = VFunc('os.close', f_close)
 
+    def f_walk(it, a, k, n):
+        # the directory walk is an opaque lazy iterator; what it yields is the A-oswalk assumption of its consumers
+        it.ctx.ghost.setdefault('oswalk_calls', []).append((a, k))
+        return VOpaque(it.ctx.fresh_const('oswalk', U))
+    os_['walk'] = VFunc('os.walk', f_walk)
+
     fc = lib.modules.setdefault('fcntl', {})
     fc['fcntl'] = VFunc('fcntl.fcntl', lambda it, a, k, n: VInt(0))
     fc['F_SETFL'] = VInt(4)
